@@ -29,6 +29,20 @@ def splice_text(fa, ta, fb, tb):
     return s.getvalue()
 
 
+_FORK = {}
+
+
+def _fork_worker(k):
+    """runs in a forked child: two files without an explicit session key; returns (draws, key) per file"""
+    seams = _FORK["seams"]
+    out = []
+    for _ in range(2):
+        seams.take()
+        f = Bec2File(_FORK["content"], [], None)
+        out.append(([bytes(e["val"]) for e in seams.take() if e["ev"] == "rng"], bytes(f.session_key)))
+    return out
+
+
 def run(tier):
     rep = Report("C07", tier)
     r = rng("c07")
@@ -81,6 +95,24 @@ def run(tier):
                             encs_w = [e for e in plan.encs_w]
                             if list(g.auth_blocks.keys()) == [m["tag"] for m in metas]:
                                 G.rec_bec2_write(rec, seams, orc, g, metas, encs_w, C.enc_specs(plan))
+        # (a') one history spread over SEVERAL PROCESSES: the parent creates files (so that anything the library keeps
+        # between draws is in place), then forked workers each create files; all keys of the history must be distinct
+        # (a fork duplicates whatever the parent had buffered)
+        import multiprocessing as _mp
+        grp = ngroups + 1
+        ngroups += 1
+        for _ in range(2):
+            seams.take()
+            f0 = Bec2File(G.gen_content(r), [], None)
+            draws = [e["val"] for e in seams.take() if e["ev"] == "rng"]
+            hist.add({"op": "newfile", "grp": grp, "explicit": 0, "draws": [B(d) for d in draws], "key": B(f0.session_key), "given": [],
+                      "ephs": [], "necc": 0, "key_before": [], "key_after": []})
+        _FORK["seams"], _FORK["content"] = seams, G.gen_content(r)
+        with _mp.get_context("fork").Pool(3) as pool:
+            for evs in pool.map(_fork_worker, range(3)):
+                for draws, key in evs:
+                    hist.add({"op": "newfile", "grp": grp, "explicit": 0, "draws": [B(d) for d in draws], "key": B(key), "given": [],
+                              "ephs": [], "necc": 0, "key_before": [], "key_after": []})
         # (c) spliced headers
         nspl = 0
         # key pairs: random pairs, and pairs that differ in exactly ONE byte position (every position) or one bit:
